@@ -27,7 +27,7 @@ PROPS = {
     "C01": {
         "prefixes": ["c01"],
         "select": lambda hs, tier, seed: hs if tier == "thorough" else
-        _rotate(_rotate(hs, tier, seed, "c01_read_", 70), tier, seed, "c01_hw_", 30),
+        _rotate(_rotate(hs, tier, seed, "c01_read_", 110), tier, seed, "c01_hw_", 45),
         "generators": [_gen_read_walk],
         "assumptions": COMMON + [
             "inputs are byte strings of length <= N (N per harness, in `bounds`) and symbolic read arguments; longer inputs are outside the claim",
@@ -40,7 +40,7 @@ PROPS = {
         "prefixes": ["c02"],
         "generators": [_gen_opcodes],
         "select": lambda hs, tier, seed: _rotate(hs, tier, seed, "c02_op2_", 120) if tier == "thorough" else
-        _rotate(_rotate(hs, tier, seed, "c02_op2_", 0), tier, seed, "c02_op_", 122),
+        _rotate(_rotate(hs, tier, seed, "c02_op2_", 0), tier, seed, "c02_op_", 200),
         "assumptions": COMMON + [
             "the interpreter is stepped from a directly constructed state (see harness/incrate/engine.rs header), not through HintingInstance/OutlineGlyph::draw; whole-font drawing, the CFF hinter, the auto-hinter and the entire IFT client are outside the claim",
         ],
@@ -118,6 +118,7 @@ def _rotate(hs, tier, seed, prefix, n):
     """keep everything not starting with `prefix`; of those that do, a seed-rotated window of n"""
     rot = sorted([h for h in hs if h["fn"].startswith(prefix)], key=lambda h: h["fn"])
     rest = [h for h in hs if not h["fn"].startswith(prefix)]
+    n = min(n, len(rot))
     if rot and n > 0:
         k = (seed * n) % len(rot)
         rot = (rot + rot)[k:k + n]
@@ -132,8 +133,8 @@ def _c20_select(hs, tier, seed):
         # quick (15 min wall budget): the hand-written harnesses, a seed-rotated quarter of the one-step
         # opcode queries and a window of accessor queries; everything runs in the thorough tier
         hs = [h for h in hs if not h["fn"].startswith("c01_read_") and not h["fn"].startswith("c01_hw_")] \
-            + _rotate([h for h in hs if h["fn"].startswith("c01_hw_")], tier, seed, "c01_hw_", 20)
-        hs = _rotate(hs, tier, seed, "c02_op_", 64)
+            + _rotate([h for h in hs if h["fn"].startswith("c01_hw_")], tier, seed, "c01_hw_", 30)
+        hs = _rotate(hs, tier, seed, "c02_op_", 110)
     return hs
 
 
